@@ -230,6 +230,22 @@ def run_case(case):
             continue
         edges, parsed = decode(payload, script)
         nontrivial += 1
+        # the distribution is a function of the model: a second write() of the same mesh gives the same file
+        # (numbers compared to rel 1e-9: the last digit of an expansion computed as 1/(1/x) is not another file)
+        kind2, payload2 = gradlab.write_and_observe(mesh)
+        if kind2 != "ok":
+            violations.append({"clause": "second-write-differs", "coords": coords, "detail": f"the same mesh written again: {kind2} {payload2}"})
+        elif payload2 != payload:
+            p2 = gradlab.parse_ok(payload2)
+            same = [b["v"] for b in p2["blocks"]] == [b["v"] for b in parsed["blocks"]] and all(
+                b1["counts"] == b2["counts"]
+                and b1["kind"] == b2["kind"]
+                and len(b1["grading"]) == len(b2["grading"])
+                and all(len(i1) == len(i2) and all(close(x, y, 1e-9) for s1, s2 in zip(i1, i2) for x, y in zip(s1, s2)) for i1, i2 in zip(b1["grading"], b2["grading"]))
+                for b1, b2 in zip(parsed["blocks"], p2["blocks"])
+            )
+            if not same or p2["vertices"] != parsed["vertices"] or p2["edges"] != parsed["edges"]:
+                violations.append({"clause": "second-write-differs", "coords": coords, "detail": "the same mesh written again gives other counts, gradings, vertices or edges"})
         simple = sum(1 for b in parsed["blocks"] if b["kind"] == "simpleGrading")
         okey = f"ok:simple{simple}of{len(parsed['blocks'])}"
         outcomes[okey] = outcomes.get(okey, 0) + 1
